@@ -22,3 +22,15 @@ package handler
 //@   ensures[C17:no-dot] idxByte(method, '.') < 0 ==> result == nil && assignCalls == old(assignCalls)
 //@   ensures[C17:unknown-service] idxByte(method, '.') >= 0 && !in(m, substr(method, 0, idxByte(method, '.'))) ==> result == nil && assignCalls == old(assignCalls)
 //@   ensures[C17:first-dot] idxByte(method, '.') >= 0 && in(m, substr(method, 0, idxByte(method, '.'))) ==> result == assignerResult(lookup(m, substr(method, 0, idxByte(method, '.'))), substr(method, idxByte(method, '.') + 1, len(method)))
+
+// Names: the list is sorted (that it is complete is not decided: it needs a
+// witness for every key across the sort's permutation).
+//@ func (Map).Names
+//@   fresh result
+//@   ensures[C17:sorted] forall(i int, j int, 0 <= i && i <= j && j < len(result) ==> strLE(result[i], result[j]))
+//@   loop 1 invariant ptr(names) == 0 || isnew(ptr(names))
+//@ func (ServiceMap).Names
+//@   fresh result
+//@   ensures[C17:sorted] forall(i int, j int, 0 <= i && i <= j && j < len(result) ==> strLE(result[i], result[j]))
+//@   loop 1 invariant ptr(all) == 0 || isnew(ptr(all))
+//@   loop 2 invariant ptr(all) == 0 || isnew(ptr(all))
